@@ -177,6 +177,16 @@ def call_native(interp, st, f, args, kwargs, node=None):
         return
     # method descriptors of builtin types: str.join(x, y) style or bound natives
     slf = getattr(f, '__self__', None)
+    import logging
+    if slf is not None and isinstance(slf, logging.Logger):
+        # logging calls: arguments were evaluated (their exceptions are seen), the call itself is effect-free
+        interp.assumptions.add("logging calls are effect-free and do not raise")
+        yield st, (VBool(False) if f.__name__ == 'isEnabledFor' else VNone)
+        return
+    if slf is not None and type(slf).__module__.split('.')[0] == 'prometheus_client':
+        interp.assumptions.add("prometheus metric calls are effect-free and do not raise")
+        yield st, (VConst(slf) if f.__name__ == 'labels' else VNone)
+        return
     if slf is not None and not isinstance(slf, types.ModuleType) and isinstance(f, types.BuiltinFunctionType):
         mm = interp.method_models.get((type(slf), f.__name__))
         if mm is not None:
@@ -300,8 +310,20 @@ def idx_int(v):
 def getitem(interp, st, o, k, node=None):
     """o[k]; k may be ('slice', lo, hi, step)"""
     from .chars import VChars, chars_getitem
-    from .segs import VSegs, to_vbytes
+    from .segs import VSegs, to_vbytes, segs_getitem, segs_slice
     if isinstance(o, VSegs):
+        r = None
+        if isinstance(k, tuple) and k and k[0] == 'slice':
+            if k[3] is VNone and all(x is VNone or idx_int(x) is not None for x in (k[1], k[2])):
+                r = segs_slice(interp, st, o, None if k[1] is VNone else idx_int(k[1]), None if k[2] is VNone else idx_int(k[2]))
+        elif idx_int(k) is not None:
+            r = segs_getitem(interp, st, o, idx_int(k))
+        if r is not None:
+            yield st, r
+            return
+        import os, sys
+        if os.environ.get('VERIF_DEBUG'):
+            print("DEBUG structural index/slice failed on", o.segs[:8], "key", k, file=sys.stderr, flush=True)
         o = to_vbytes(o)
     if isinstance(o, VChars):
         yield from chars_getitem(interp, st, o, k, node)
